@@ -24,6 +24,7 @@ import (
 	"log/slog"
 	"net/netip"
 	"sort"
+	"strings"
 	"time"
 
 	"github.com/flynn/noise"
@@ -52,12 +53,41 @@ const (
 // VerifHSTimeout is hsTimeout(retries, interval): the span of the outbound handshake timer wheel.
 func VerifHSTimeout(retries int64, interval time.Duration) time.Duration { return hsTimeout(retries, interval) }
 
-type verifHSLevel struct{}
+// verifHSLevel is the node's log handler: it prints nothing. Info and above are enabled so that Handle sees every
+// log line of beginHandshake / continueHandshake; when a hook is armed for a message, Handle runs it at that very
+// point of the code under test, on the same goroutine - this is how the harness interleaves the tun reader's
+// GetOrHandshake + cachePacket with the UDP reader's continueHandshake without any hook in /repo.
+type verifHSLevel struct{ w *VerifHSWorld }
 
-func (verifHSLevel) Enabled(context.Context, slog.Level) bool  { return false }
-func (verifHSLevel) Handle(context.Context, slog.Record) error { return nil }
-func (h verifHSLevel) WithAttrs([]slog.Attr) slog.Handler      { return h }
-func (h verifHSLevel) WithGroup(string) slog.Handler           { return h }
+func (verifHSLevel) Enabled(_ context.Context, l slog.Level) bool { return l >= slog.LevelInfo }
+func (h verifHSLevel) Handle(_ context.Context, r slog.Record) error {
+	if h.w != nil && h.w.hook != nil && strings.HasPrefix(r.Message, h.w.hookMsg) {
+		f := h.w.hook
+		h.w.hook = nil
+		h.w.hookFired = true
+		f()
+	}
+	return nil
+}
+func (h verifHSLevel) WithAttrs([]slog.Attr) slog.Handler { return h }
+func (h verifHSLevel) WithGroup(string) slog.Handler      { return h }
+
+// log messages the harness can interleave at
+const (
+	VerifHSLogReceived      = "Handshake message received"           // beginHandshake and continueHandshake, before CheckAndComplete / Complete
+	VerifHSLogIncorrectHost = "Incorrect host responded to handshake" // continueHandshake, before the restart
+)
+
+// AtLog arms fn to run inside the node's next log call whose message starts with msg.
+func (w *VerifHSWorld) AtLog(msg string, fn func()) {
+	w.hookMsg, w.hook, w.hookFired = msg, fn, false
+}
+
+// LogHookFired reports whether the armed hook ran, and disarms it.
+func (w *VerifHSWorld) LogHookFired() bool {
+	w.hook = nil
+	return w.hookFired
+}
 
 // ---- scripted crypto/rand --------------------------------------------------------------------------
 
@@ -114,12 +144,30 @@ func (c *verifHSConn) WriteBatch(bufs [][]byte, addrs []netip.AddrPort) (int, er
 
 // ---- names -----------------------------------------------------------------------------------------
 
-// VerifHSAddr: overlay address number a <-> 10.0.hi.lo
+// VerifHSAddr: overlay address number a <-> 10.0.hi.lo for a < 1000, fd00::(a-1000) for a >= 1000 (IPv6)
+const verifHSV6Base = 1000
+
 func VerifHSAddr(a uint64) netip.Addr {
+	if a >= verifHSV6Base {
+		n := a - verifHSV6Base
+		return netip.AddrFrom16([16]byte{0xfd, 0, 0, 0, 0, 0, 0, 0, 0, 0, 0, 0, 0, 0, byte(n >> 8), byte(n)})
+	}
 	return netip.AddrFrom4([4]byte{10, 0, byte(a >> 8), byte(a)})
 }
 
 func verifHSAddrNum(a netip.Addr) uint64 {
+	if a.Is6() && !a.Is4In6() {
+		b := a.As16()
+		if b[0] != 0xfd {
+			return VerifHSUnknown
+		}
+		for _, x := range b[1:14] {
+			if x != 0 {
+				return VerifHSUnknown
+			}
+		}
+		return verifHSV6Base + (uint64(b[14])<<8 | uint64(b[15]))
+	}
 	if !a.Is4() {
 		return VerifHSUnknown
 	}
@@ -196,6 +244,10 @@ type VerifHSWorld struct {
 	stage2   map[uint64][]byte // hostinfo id -> the stage-2 reply this node built for it
 	fallback uint32
 	realRand io.Reader
+
+	hookMsg   string
+	hook      func()
+	hookFired bool
 }
 
 func verifHSMust(err error) {
@@ -205,9 +257,10 @@ func verifHSMust(err error) {
 }
 
 func VerifHSNewWorld(cfg VerifHSConfig) *VerifHSWorld {
-	l := slog.New(verifHSLevel{})
-	w := &VerifHSWorld{cfg: cfg, l: l, rec: &verifHSConn{}, ids: map[*HostInfo]uint64{}, byID: map[uint64]*HostInfo{},
+	w := &VerifHSWorld{cfg: cfg, rec: &verifHSConn{}, ids: map[*HostInfo]uint64{}, byID: map[uint64]*HostInfo{},
 		hh: map[uint64]*HandshakeHostInfo{}, nextID: 1, stage2: map[uint64][]byte{}, realRand: crand.Reader}
+	l := slog.New(verifHSLevel{w: w})
+	w.l = l
 	w.suite = noise.NewCipherSuite(noise.DH25519, noiseutil.CipherAESGCM, noise.HashSHA256)
 
 	before, after := time.Now().Add(-time.Hour), time.Now().Add(48*time.Hour)
@@ -219,8 +272,12 @@ func VerifHSNewWorld(cfg VerifHSConfig) *VerifHSWorld {
 
 	// my certificates: one key pair, a v2 certificate with all my addresses and a v1 certificate with the first
 	var nets []netip.Prefix
-	for _, a := range cfg.MyAddrs {
-		nets = append(nets, netip.PrefixFrom(VerifHSAddr(a), 8))
+	for _, a := range cfg.MyAddrs { // ascending, an IPv4 address first (the v1 certificate carries the first only)
+		bits := 8
+		if a >= verifHSV6Base {
+			bits = 64
+		}
+		nets = append(nets, netip.PrefixFrom(VerifHSAddr(a), bits))
 	}
 	pub, priv := cert_test.X25519Keypair()
 	sign := func(v cert.Version, n []netip.Prefix) cert.Certificate {
@@ -309,8 +366,8 @@ func (w *VerifHSWorld) withRand(script []uint32, fn func()) []uint32 {
 
 // ---- peers -----------------------------------------------------------------------------------------
 
-// VerifHSPeerAddr is one network of a peer certificate: the address number and the prefix length (8, 16 or 24:
-// the same address may appear twice in one certificate under different prefix lengths).
+// VerifHSPeerAddr is one network of a peer certificate: the address number and the prefix length (IPv4: 8, 16 or 24,
+// IPv6: 48, 56 or 64; the same address may appear twice in one certificate under different prefix lengths).
 type VerifHSPeerAddr struct {
 	Addr uint64
 	Bits int
@@ -405,6 +462,12 @@ func (w *VerifHSWorld) DeliverStage1(pkt uint64, v uint64, script []uint32) []ui
 	served := w.withRand(script, func() { w.incoming(w.stage1[pkt-1], v) })
 	w.adopt()
 	return served
+}
+
+// DeliverStage1Anon is DeliverStage1 without naming the responder hostinfo it may create (C32 follows pending
+// handshakes only).
+func (w *VerifHSWorld) DeliverStage1Anon(pkt uint64, v uint64) {
+	w.incoming(w.stage1[pkt-1], v)
 }
 
 // ---- initiator side ----------------------------------------------------------------------------------
